@@ -307,6 +307,11 @@ Definition mon_byte_slice (v : list Z) : bool := (nthz 2 v =? 1) && (nthz 3 v =?
 Definition model_byte_laws (v : list Z) : list Z := [1; 1; 1].
 Definition mon_byte_laws (v : list Z) : bool := (nthz 0 v =? 1) && (nthz 1 v =? 1) && (nthz 2 v =? 1).
 
+(* 531: a container method of TransparentWrapperAlloc used on a given wrapper (unsized inners included): the program
+   must compile (the method exists for that wrapper) and its round trip must be exact: [compiles; roundtrip_ok] *)
+Definition model_api (v : list Z) : list Z := [1; 1].
+Definition mon_api (v : list Z) : bool := (nthz 0 v =? 1) && (nthz 1 v =? 1).
+
 Definition xmodel2 (a : acase) (v : list Z) : list Z :=
   match a_fn a with
   | 501%N => model_derive_struct v
@@ -320,6 +325,7 @@ Definition xmodel2 (a : acase) (v : list Z) : list Z :=
   | 523%N => model_byte_laws v
   | 513%N => model_minmax v
   | 514%N => model_valid v
+  | 531%N => model_api v
   | _ => xmodel a v
   end.
 Definition xmonitors2 (a : acase) (v : list Z) : list (N * bool) :=
@@ -335,6 +341,7 @@ Definition xmonitors2 (a : acase) (v : list Z) : list (N * bool) :=
   | 522%N => [(18%N, mon_byte_slice v)]
   | 523%N => [(18%N, mon_byte_laws v)]
   | 513%N => [(6%N, mon_minmax v); (17%N, mon_minmax v)]
-  | 514%N => [(6%N, mon_valid v)]
+  | 514%N => [(6%N, mon_valid v); (8%N, mon_valid v)]
+  | 531%N => [(13%N, mon_api v)]
   | _ => xmonitors a v
   end.
